@@ -2618,6 +2618,21 @@ func (p *Posix) UploadPartCopy(ctx context.Context, upi *s3.UploadPartCopyInput)
 		return s3response.CopyPartResult{}, fmt.Errorf("stat object: %w", err)
 	}
 
+	if p.versioningEnabled() {
+		// a delete marker is no copy source: the key reads as missing,
+		// the file only keeps the data of the version it replaced
+		isDelMarker, err := p.isObjDeleteMarker(srcBucket, srcObject)
+		if err != nil {
+			return s3response.CopyPartResult{}, err
+		}
+		if isDelMarker {
+			if srcVersionId != "" {
+				return s3response.CopyPartResult{}, s3err.GetAPIError(s3err.ErrMethodNotAllowed)
+			}
+			return s3response.CopyPartResult{}, s3err.GetAPIError(s3err.ErrNoSuchKey)
+		}
+	}
+
 	startOffset, length, err := backend.ParseCopySourceRange(fi.Size(), *upi.CopySourceRange)
 	if err != nil {
 		return s3response.CopyPartResult{}, err
@@ -4100,6 +4115,21 @@ func (p *Posix) CopyObject(ctx context.Context, input s3response.CopyObjectInput
 	}
 	if !strings.HasSuffix(srcObject, "/") && fi.IsDir() {
 		return nil, s3err.GetAPIError(s3err.ErrNoSuchKey)
+	}
+
+	if p.versioningEnabled() {
+		// a delete marker is no copy source: the key reads as missing,
+		// the file only keeps the data of the version it replaced
+		isDelMarker, err := p.isObjDeleteMarker(srcBucket, srcObject)
+		if err != nil {
+			return nil, err
+		}
+		if isDelMarker {
+			if srcVersionId != "" {
+				return nil, s3err.GetAPIError(s3err.ErrMethodNotAllowed)
+			}
+			return nil, s3err.GetAPIError(s3err.ErrNoSuchKey)
+		}
 	}
 
 	mdmap := make(map[string]string)
